@@ -174,13 +174,13 @@ func rulePolicyEffect(c *Ctx, rule string) {
 		}
 	}
 	if fn := c.MustFn(rule, spPkg, "(*FloatingIPPlugin).shouldRelease"); fn != nil {
-		gone := guardEdges(fn, negate(predBool(func(v ssa.Value) bool { return sameParam(v, fn.Params[2]) })))
+		gone := guardEdges(fn, negate(predBool(func(v ssa.Value) bool { return sameParam(v, pAt(fn, 2)) })))
 		scaled := guardEdges(fn, func(v ssa.Value) (bool, int) {
 			bo, ok := v.(*ssa.BinOp)
 			if !ok {
 				return false, 0
 			}
-			isRep := func(x ssa.Value) bool { return sameParam(x, fn.Params[3]) }
+			isRep := func(x ssa.Value) bool { return sameParam(x, pAt(fn, 3)) }
 			isIdx := func(x ssa.Value) bool {
 				return dependsOn(x, func(y ssa.Value) bool { return isResultOf(y, 0, spPkg+".parsePodIndex") })
 			}
@@ -229,7 +229,7 @@ func rulePolicyDerivation(c *Ctx, rule string) {
 		// ... and nothing else is ever returned for a pool pod: a return of anything but Never is reachable only through
 		// the pool == "" edge or the no-annotations edges
 		noPool := guardEdges(fn, predEq(func(v ssa.Value) bool { return isResultOf(v, 0, constPkg+".GetPool") }, func(v ssa.Value) bool { s, ok := constStringVal(v); return ok && s == "" }))
-		noAnn := guardEdges(fn, predEq(func(v ssa.Value) bool { return sameParam(v, fn.Params[0]) || pathEndsWith(v, "Annotations") }, isNilConst))
+		noAnn := guardEdges(fn, predEq(func(v ssa.Value) bool { return sameParam(v, pAt(fn, 0)) || pathEndsWith(v, "Annotations") }, isNilConst))
 		r := reachFromEntry(fn, newCut().edge(noPool...).edge(noAnn...))
 		okOnly := len(noPool) == 1
 		for _, ret := range returns(fn) {
@@ -268,7 +268,7 @@ func rulePolicyDerivation(c *Ctx, rule string) {
 		never, _ := c.constString(constPkg, "Never")
 		imm, _ := c.constString(constPkg, "Immutable")
 		strEq := func(s string) []edge {
-			return guardEdges(fn, predEq(func(v ssa.Value) bool { return sameParam(v, fn.Params[0]) }, func(v ssa.Value) bool { x, ok := constStringVal(v); return ok && x == s }))
+			return guardEdges(fn, predEq(func(v ssa.Value) bool { return sameParam(v, pAt(fn, 0)) }, func(v ssa.Value) bool { x, ok := constStringVal(v); return ok && x == s }))
 		}
 		check := func(es []edge, want int64) bool {
 			if len(es) == 0 {
@@ -433,6 +433,24 @@ func callersPassPolicyD(c *Ctx, fn *ssa.Function, p *ssa.Parameter, isSrc func(s
 									if q, isP := unspill(st.Val).(*ssa.Parameter); isP && callersPassPolicyD(c, g, q, isSrc, depth+1) {
 										return
 									}
+									// the policy arrives as a field of a parameter struct: every caller's struct literal
+									// must carry a policy from the source
+									if fname, q := fieldOfStructParam(g, st.Val); q != nil && depth < 4 {
+										allOK, nn := true, 0
+										for _, site := range staticSites[g] {
+											nn++
+											v := argNamed(site, fname, -1)
+											if v == nil || !(dependsOn(v, isSrc) || func() bool {
+												qq, isP := unspill(v).(*ssa.Parameter)
+												return isP && callersPassPolicyD(c, site.Parent(), qq, isSrc, depth+1)
+											}()) {
+												allOK = false
+											}
+										}
+										if allOK && nn > 0 {
+											return
+										}
+									}
 								}
 							}
 						}
@@ -477,4 +495,40 @@ func ruleUnbindUsesPodPolicy(c *Ctx, rule string) {
 		}
 	}
 	c.ob(rule, fn, "deployment pods go to unbindDpPod, all others to unbindNoneDpPod", nil, okR, "routing on keyObj.Deployment()")
+}
+
+// fieldOfStructParam: v is a load of field f of a struct-typed parameter of g (also when the parameter was spilled into a cell)
+func fieldOfStructParam(g *ssa.Function, v ssa.Value) (string, *ssa.Parameter) {
+	u := stripConv(v)
+	var base ssa.Value
+	name := ""
+	switch x := u.(type) {
+	case *ssa.Field:
+		base, name = x.X, fieldName(x.X.Type(), x.Field)
+	case *ssa.UnOp:
+		if fa, ok := x.X.(*ssa.FieldAddr); ok {
+			base, name = fa.X, fieldName(fa.X.Type(), fa.Field)
+		}
+	}
+	if base == nil {
+		return "", nil
+	}
+	if p, ok := unspill(base).(*ssa.Parameter); ok && p.Parent() == g {
+		return name, p
+	}
+	if ld, ok := base.(*ssa.UnOp); ok {
+		if p, ok := unspill(ld).(*ssa.Parameter); ok && p.Parent() == g {
+			return name, p
+		}
+	}
+	if a, ok := base.(*ssa.Alloc); ok {
+		for _, ref := range *a.Referrers() {
+			if st, ok := ref.(*ssa.Store); ok && st.Addr == ssa.Value(a) {
+				if p, ok := st.Val.(*ssa.Parameter); ok && p.Parent() == g {
+					return name, p
+				}
+			}
+		}
+	}
+	return "", nil
 }
